@@ -215,7 +215,7 @@ def enum_merge(ctx, rule, cls, prefix="", key=None, loc=None):
     for p in paths:
         inner_iters = [e for e in p.events if e.kind == "ITER" and len(e.loops) >= 2]
         st = [e for e in p.events if e.kind == "STORE" and e["base"] == dst]
-        up = [e for e in p.events if e.kind == "MUT" and e["base"] == dst and e["method"] == "update" and e.loops]
+        up = [e for e in p.events if e.kind == "MUT" and e["base"] == dst and e["method"] == "update"]
         wr = [e for e in p.events if e.kind == "SELFWRITE" and e["base"] == SELF and e["attr"] in ("encmapping", "decmapping", "flags")]
         if inner_iters and not st:
             every = False       # an entry of a merged enum class was skipped (e.g. a member whose value is 0)
@@ -231,12 +231,16 @@ def enum_merge(ctx, rule, cls, prefix="", key=None, loc=None):
         elif up:
             e = up[0]
             arg = e["args"][0] if len(e["args"]) == 1 else None
-            if arg is not None and arg[0] == "comp" and len(arg[3]) == 1 and not arg[3][0][1] and arg[2][0] == "tuple" and len(arg[2][1]) == 2:
-                it = arg[3][0][0]
+            # one generator inside a loop over the merged classes, or both loops as generators of one comprehension
+            gens = arg[3] if arg is not None and arg[0] == "comp" else ()
+            if arg is not None and arg[0] == "comp" and ((len(gens) == 1 and e.loops) or (len(gens) == 2 and not e.loops)) and not any(g[1] for g in gens) \
+                    and arg[2][0] == "tuple" and len(arg[2][1]) == 2:
+                it = gens[-1][0]
                 k, v = arg[2][1]
-                if any(x[0] == "attr" and x[2] == "__members__" for x in N.walk(it)):
+                outer_ok = len(gens) == 1 or (gens[0][0] == ("param", "*merge") and it[0] == "elem" and it[1] == gens[0][0])
+                if any(x[0] == "attr" and x[2] == "__members__" for g in gens for x in N.walk(g[0])):
                     good, why = False, " (iterates __members__, which includes aliases)"
-                elif it[0] == "elem" and k[0] == "attr" and k[2] == "name" and v[0] == "attr" and v[2] == "value" and k[1] == v[1] and k[1][0] == "elem" and k[1][1] == it:
+                elif outer_ok and it[0] == "elem" and k[0] == "attr" and k[2] == "name" and v[0] == "attr" and v[2] == "value" and k[1] == v[1] and k[1][0] == "elem" and k[1][1] == it:
                     good = all(p.index(e) < p.index(w) for w in wr) and bool(wr)
                 else:
                     undecided = N.show(arg)[:120]
